@@ -277,7 +277,11 @@ def check_C09():
         irows = rng.sample(ik, min(30, len(ik))) + rng.sample(io, min(70, len(io)))
         sk = [o for o in srows if o["known"]]
         so = [o for o in srows if not o["known"]]
-        srows = rng.sample(sk, min(50, len(sk))) + rng.sample(so, min(70, len(so)))
+        # two minimum-like rules (not_empty + len_char_min): the shape of the repaired defect 3251cda is always replayed
+        both = [o for o in so if {"not_empty", "len_char_min"} <= {r["k"] for r in o["d"]["val"]}]
+        both = rng.sample(both, min(24, len(both)))
+        rest = [o for o in so if o not in both]
+        srows = rng.sample(sk, min(50, len(sk))) + both + rng.sample(rest, min(60, len(rest)))
     idecls = instantiate(irows, rng, 1)
     sdecls = []
     for i, obj in enumerate(srows):
